@@ -625,3 +625,19 @@ def x03(ctx):
                          "compares the validation error returned with the closed list (missing out / invalid resumption / none) with Scte35State!Warn. class = (op, type, result, #closed, #open)",
                     trace_module="Trace_X03", sigfn=V.default_sig,
                     assumptions=["not one of the given properties: the validation verdict is modelled as the library has it; not registered in MANIFEST.json"])
+
+
+@prop("X04", "Trace_X04")
+def x04(ctx):
+    summ = V.gen_traces(ctx, shards=12)
+    V.validate(ctx, "Trace_X04", summ, V.default_sig, par=12)
+    ctx.states = 0
+    return V.finish(ctx, "exploration",
+                    rule="PES packets (eight stream ids, every PTS/DTS form, stuffing, data 0..920 bytes; PES_packet_length exact, 0 = unbounded, ending inside the data, longer than sent) cut into "
+                         "transport packets at random fragment sizes with adaptation-field stuffing, continuation packets of an earlier unit in front, an adaptation-field-only packet in between, "
+                         "the next unit behind; written to a real accumulator under the 'PES packet complete' predicate. TLC folds Accumulator!WriteF under PesCarriage!PesDone over the packets and "
+                         "compares the per-packet results and the gathered bytes; when they are a well-formed PES start, the getters of NewPESHeader (queried in a recorded order) must equal Pes. "
+                         "class = (length variant, last result, header decoded)",
+                    trace_module="Trace_X04", sigfn=V.default_sig,
+                    assumptions=["not one of the given properties (composition of C17 and C11); not registered in MANIFEST.json"])
+
